@@ -497,6 +497,8 @@ class InterpError(Exception):
 
 
 _KNOWN = None
+OKNESS_PRESERVING = {"std::result::Result::map_err", "std::result::Result::or", "std::result::Result::map", "std::result::Result::inspect", "std::result::Result::inspect_err",
+                     "std::result::Result::as_ref", "std::result::Result::as_mut", "std::result::Result::copied", "std::result::Result::cloned"}
 _UMAX = {"u8": 0xFF, "u16": 0xFFFF, "u32": 0xFFFFFFFF, "u64": 0xFFFFFFFFFFFFFFFF, "usize": 0xFFFFFFFFFFFFFFFF}
 _FROMSTR = re.compile(r"<impl std::str::FromStr for ([^>]+(?:<.*>)?)>::from_str$")
 _U = "(u8|u16|u32|u64|usize)"
@@ -1225,6 +1227,10 @@ class Interp:
             return Or(*[And(c, self._try_success(x, n)) for c, x in v0.alts])
         if isinstance(v0, CallV) and v0.callee == "std::result::Result::ok" and len(v0.args) == 1:
             return atom("variant", core(v0.args[0]).r(), "Ok")
+        if isinstance(v0, CallV) and v0.callee in OKNESS_PRESERVING and v0.args:
+            # map_err / or(Err(..)) / map / inspect*: Ok exactly when the receiver is Ok
+            if v0.callee != "std::result::Result::or" or (len(v0.args) == 2 and isinstance(core(v0.args[1]), StructV) and core(v0.args[1]).variant == "Err"):
+                return self._try_success(v0.args[0], None)
         ty = ((n or {}).get("e") or {}).get("ty", "")
         if ty.startswith("std::option::Option"):
             return atom("some", v0.r())
